@@ -1,6 +1,7 @@
 CLAIM = "wip"
 ASSUMPTIONS = []
 BITS = {"lib/bit_stream_reader.c": ["peek_bits", "read_bits", "read_bit"]}
+CMD2 = dict(BITS, **{"lib/tree_decode.c": ["read_from_tree"], "lib/pm2_decoder.c": ["rebuild_tree"], "lib/pma_common.c": ["find_in_history_list", "update_history_list"]})
 HARNESSES = [
     dict(name="mtf.init", src="C04/mtf.c", entry="harness_init", unwind=257, units=["lib/pma_common.c:init_history_list"], timeout=120, bounds="concrete, all 256 ranks"),
     dict(name="mtf.update", src="C04/mtf.c", entry="harness_update", unwind=9, backend="cadical", units=["lib/pma_common.c:update_history_list"], timeout=200, bounds="256"),
@@ -19,4 +20,15 @@ HARNESSES = [
          rename_defs=dict(BITS, **{"lib/pm2_decoder.c": ["read_code_tree", "read_offset_tree"]}), unwind=3,
          unwindset={"memset.0": 8200, "init_history_list.0": 257, "init_tree.0": 66, "find_in_history_list.0": 9, "find_in_history_list.1": 2, "bs_ref.0": 4},
          units=["lib/pm2_decoder.c:lha_pm2_decoder_init,lha_pm2_decoder_read,rebuild_tree"], timeout=200, bounds="x"),
+    dict(name="pm2.cmd.byte", src="C04/pm2_cmd.c", entry="harness_byte", defines=["BYTE_HARNESS"], rename_defs=CMD2, unwind=5, unwindset={"bs_ref.0": 8}, flags=["--arrays-uf-always"],
+         units=["lib/pm2_decoder.c:lha_pm2_decoder_read,read_single_byte,output_byte"], timeout=200, bounds="x"),
+    dict(name="pm2.cmd.copy", src="C04/pm2_cmd.c", entry="harness_copy", defines=["COPY_HARNESS"], rename_defs=CMD2, unwind=5, unwindset={"bs_ref.0": 14, "copy_from_history.0": 17},
+         flags=["--arrays-uf-always"], units=["lib/pm2_decoder.c:lha_pm2_decoder_read,copy_from_history,history_get_count,history_get_offset,output_byte"], timeout=300, mem_gb=4, bounds="x"),
+    dict(name="pm2.cmd.fields", src="C04/pm2_cmd.c", entry="harness_fields", defines=["FIELDS_HARNESS"], rename_defs=CMD2, unwind=5, unwindset={"bs_ref.0": 14},
+         units=["lib/pm2_decoder.c:history_get_count,history_get_offset", "lib/pma_common.c:decode_variable_length"], timeout=200, bounds="x"),
+] + [
+    dict(name="pm2.cmd.long.c%d.%d" % (c, ln), src="C04/pm2_cmd.c", entry="harness_long", defines=["LONG_HARNESS", "LC=%d" % c, "LX=%d" % lx, "LPOS=%d" % pos, "LT=%d" % t, "LV=%d" % v], rename_defs=CMD2,
+         unwind=5, unwindset={"bs_ref.0": 14, "copy_from_history.0": 258, "harness_long.0": 266, "put_bits.0": 14},
+         units=["lib/pm2_decoder.c:lha_pm2_decoder_read,copy_from_history,history_get_count,history_get_offset,output_byte"], timeout=300, mem_gb=4, bounds="x")
+    for c, lx, ln, pos, t, v in [(15, 0, 17, 0, 0, 0), (16, 7, 32, 8190, 7, 4095), (17, 20, 53, 100, 3, 44), (18, 63, 128, 5, 1, 0), (19, 0, 129, 8000, 5, 17), (19, 127, 256, 8100, 0, 2), (20, 0, 256, 4096, 0, 0)]
 ]
